@@ -129,6 +129,16 @@ func (sc *ServerConnection) handshake(conn *streams.BufferedInputConnection) err
 	if !sc.secure {
 		if sc.manager != nil {
 			if c, err := sc.manager.GetTlsConfig(); err != nil {
+				if sc.clientCertRequired() {
+					// Without the TLS configuration no client can be authenticated: refuse instead of serving in clear
+					response.Status = strconv.Itoa(http.StatusInternalServerError) + " Internal Server Error"
+					response.StatusCode = http.StatusInternalServerError
+					response.Headers.Set("Message", "Client certificates are required but TLS is not available")
+					if e := response.Write(conn); e != nil {
+						log.WithError(e).Warnf("Could not write response: %v", e)
+					}
+					return errors.Wrapf(err, "Client certificates are required but the TLS configuration cannot be loaded")
+				}
 				log.WithError(err).Warnf("Could not get X509 key pair, will not be able to advertise STARTTLS")
 			} else if c != nil && c.Certificates != nil && len(c.Certificates) > 0 {
 				sc.supportTls = true
@@ -275,12 +285,37 @@ func (sc *ServerConnection) upgrade(conn *streams.BufferedInputConnection) (stre
 		}
 	}
 
+	if !sc.secure && sc.clientCertRequired() {
+		// The client did not ask for StartTLS, so it has not presented any certificate
+		response = &Response{
+			Status:     strconv.Itoa(http.StatusForbidden) + " Forbidden",
+			StatusCode: http.StatusForbidden,
+		}
+		err := errors.Errorf("This server requires a client certificate, StartTLS is mandatory!")
+		responseHeaders.Set("Message", err.Error())
+		response.Headers = responseHeaders
+		log.WithError(err).Errorf(err.Error())
+
+		if e := response.Write(conn); e != nil {
+			log.WithError(e).Warnf("Could not write response: %v", e)
+		}
+		return nil, err
+	}
+
 	if e := response.Write(conn); e != nil {
 		streams.LogClose(conn)
 		log.WithError(e).Warnf("Could not write response: %v", e)
 	}
 
 	return streams.NewNamedConnection(conn, "plain"), nil
+}
+
+// clientCertRequired tells if this server admits only clients which authenticate with a certificate
+func (sc *ServerConnection) clientCertRequired() bool {
+	if m, ok := sc.manager.(interface{ ClientCertRequired() bool }); ok {
+		return m.ClientCertRequired()
+	}
+	return false
 }
 
 // negotiateVersion will find the rpsion in the list of accepted client versions
